@@ -85,6 +85,24 @@ def pv_svc():
 @event_trigger("pv_other")
 def pv_other(**kw):
     event.fire("pv_ran", who="other")
+
+def pv_slow(tag):
+    kind = state.get("pyscript.pvk")
+    event.fire("pv_boom", tag=tag)
+    task.wait_until(event_trigger="pv_resume")
+    return pv_raise(kind)
+
+@event_trigger("pv_tf_late")
+def pv_tf_late(**kw):
+    pv_slow("tf")
+
+@event_trigger("pv_tc_late")
+def pv_ttc_late(**kw):
+    task.create(pv_slow, "tc")
+
+@service
+def pv_svc_late():
+    pv_slow("svc")
 '''
 OTHER = '''
 @event_trigger("pv_other")
@@ -137,6 +155,18 @@ def check_content(records, oc):
     return ok
 
 
+async def do_reload(env, state, mode, stage):
+    """edit: rewrite hello.py (one more service) and reload; unload: stage 1 removes the file and reloads, stage 2 restores it"""
+    state["edit"] += 1
+    text = MAIN + f"\n# edit {state['edit']}\n@service\ndef pv_extra_{state['edit']}():\n    pass\n"
+    if mode == "unload" and stage == 1:
+        env.remove("hello.py")
+    else:
+        env.write("hello.py", text, mtime=2000000000 + 100 * state["edit"])
+    await env.hass.services.async_call("pyscript", "reload", {}, blocking=True)
+    await env.settle()
+
+
 async def contain_case(case):
     handler_calls = []
     loop = asyncio.get_running_loop()
@@ -150,11 +180,57 @@ async def contain_case(case):
         setup_records = len(env.log.records)
         xval = 0
         content_ok = True
+        rstate = {"edit": 0}
         for oc in case["hist"]:
             n0, e0 = len(env.log.records), len(env.events)
             handler_calls.clear()
             caller_exc = None
             entry = oc[0]
+            if entry == "OReload":
+                try:
+                    await do_reload(env, rstate, oc[1], 1)
+                    if oc[1] == "unload":
+                        await do_reload(env, rstate, oc[1], 2)
+                except BaseException as exc:  # pylint: disable=broad-except
+                    caller_exc = repr(exc)
+                script, other = count_records(env.log.records[n0:], MAIN_LOGGER)
+                out.append({"served": True, "script": script, "other": other, "sink": "SkHA" if caller_exc else "SkNone", "ran": [],
+                            "detail": [(n, m[-200:]) for n, _l, m in env.log.records[n0:]][:4], "handler": [], "caller": caller_exc})
+                continue
+            if entry == "OLate":
+                _e, late_entry, kind, mode = oc
+                call_task = None
+                try:
+                    hass.states.async_set("pyscript.pvk", kind)
+                    await env.settle()
+                    if late_entry == "ETrigFunc":
+                        hass.bus.async_fire("pv_tf_late", {})
+                    elif late_entry == "ETaskCreate":
+                        hass.bus.async_fire("pv_tc_late", {})
+                    else:
+                        call_task = asyncio.ensure_future(hass.services.async_call("pyscript", "pv_svc_late", {}, blocking=True))
+                    await env.settle()
+                    await do_reload(env, rstate, mode, 1)
+                    hass.bus.async_fire("pv_resume", {})
+                    await env.settle()
+                    if mode == "unload":
+                        await do_reload(env, rstate, mode, 2)
+                    if call_task is not None:
+                        await call_task
+                    await env.settle()
+                except BaseException as exc:  # pylint: disable=broad-except
+                    caller_exc = repr(exc)
+                if kind != "ret":
+                    gc.collect()
+                    await env.settle()
+                evs = env.events[e0:]
+                served = any(t == "pv_boom" and d.get("tag") == TAG[late_entry] for _v, t, d in evs)
+                script, other = count_records(env.log.records[n0:], MAIN_LOGGER)
+                content_ok = content_ok and check_content(env.log.records[n0:], [late_entry, kind])
+                sink = "SkHA" if caller_exc else ("SkAsyncio" if handler_calls else "SkNone")
+                out.append({"served": served, "script": script, "other": other, "sink": sink, "ran": [],
+                            "detail": [(n, m[-200:]) for n, _l, m in env.log.records[n0:]][:4], "handler": list(handler_calls), "caller": caller_exc})
+                continue
             try:
                 if entry == "OCallbacks":
                     kinds = oc[1]
